@@ -28,8 +28,11 @@ What is proved is `compile_correct_partial` (= `compile_correct_F2`, the highest
   captured variables allowed, bodies in F2) and plain `let`s in front of an F2 expression, run in
   phases over a growing heap (`ExecH`, `HExt`), with the Kripke lemmas `heap_extension_monotone`.
 
-Still missing, precisely: (i) lambda bindings under `match` (every generated program's top level
-sits under the two prelude record matches, so F3-partial adds no measured function body), the
+  Single-record-alternative `match` (the two prelude wrappers of every program) is inside F3.
+  The machine side of F4 (`vm_call_partial`, `vm_call_pap`, `vm_call_excess`, `vm_return_excess`)
+  characterises under- and over-application in the model VM exactly.
+
+Still missing, precisely: (i) lambda bindings under a `match` with several alternatives, the
 creation code of multi-member `Named::Recursive` groups, lambdas inside function bodies (the
 heap would change during a call: `Returns` keeps one heap); (ii) closures as *values* (returned,
 passed, stored in data; partial application and excess arguments of F4 produce `pap`/closure
